@@ -1970,6 +1970,24 @@ v("C14", "fallback-only-for-4xx-5xx", "httpgrpc/client.go",
 v("C14", "fallback-via-local", "httpgrpc/client.go",
   "	code := codeFromHttpStatus(reply.StatusCode)\n", "	httpStatus := reply.StatusCode\n	code := codeFromHttpStatus(httpStatus)\n", silent=True, why="status code held in a local")
 
+silent_all("d16-repaired-on-the-receiving-side", [
+    {"file": "inprocgrpc/in_process.go", "old": """		if _, ok := status.FromError(err); !ok {
+			err = status.FromContextError(err).Err()
+		}
+		_ = writeMessage(s.ctx, nil, s.responses, frame{err: err})""", "new": """		_ = writeMessage(s.ctx, nil, s.responses, frame{err: err})"""},
+    {"file": "inprocgrpc/in_process.go", "old": "			return internal.TranslateContextError(s.last.err)\n		}\n	}\n\n	for {", "new": "			return frameErr(s.last.err)\n		}\n	}\n\n	for {"},
+    {"file": "inprocgrpc/in_process.go", "old": "			s.last = &r\n			return internal.TranslateContextError(r.err)", "new": "			s.last = &r\n			return frameErr(r.err)"},
+    {"file": "inprocgrpc/in_process.go", "old": "func (s *inProcessClientStream) RecvMsg(m interface{}) error {", "new": """func frameErr(e error) error {
+	e = internal.TranslateContextError(e)
+	if _, ok := status.FromError(e); !ok {
+		e = status.FromContextError(e).Err()
+	}
+	return e
+}
+
+func (s *inProcessClientStream) RecvMsg(m interface{}) error {"""},
+], "the D16 conversion done by the client stream when it returns a frame's error instead of by the server before sending", ["C02", "C04", "C05", "C08"])
+
 
 def main():
     if os.path.isdir(OUT):
